@@ -172,6 +172,27 @@ func c11HoleDriver() func(c *explore.Chooser) *c11Case {
 	}
 }
 
+// driver 5: hole SEQUENCES - every sequence of 3..maxSeq holes over the three variables (repetitions in every
+// pattern: a b a c, a a b, a b b a ...), the holes adjacent or separated by one of three texts.  Whatever an
+// emitter does with a repeated hole (share the argument, number it) must still put every value where its hole is.
+func c11HoleSeqDriver(maxSeq int) func(c *explore.Chooser) *c11Case {
+	holes := []string{"{x}", "{s}", "{b}"}
+	seps := []string{"", "-", "%"}
+	return func(c *explore.Chooser) *c11Case {
+		form := 2 + c.Choose(2)
+		n := 3 + c.Choose(maxSeq-2)
+		sep := seps[c.Choose(len(seps))]
+		var b strings.Builder
+		for i := 0; i < n; i++ {
+			if i > 0 {
+				b.WriteString(sep)
+			}
+			b.WriteString(holes[c.Choose(len(holes))])
+		}
+		return &c11Case{form: form, body: b.String(), kind: "hole-sequences", ctx: 0}
+	}
+}
+
 // driver 4: the display form of a hole value by type
 func c11HoleTypeDriver() func(c *explore.Chooser) *c11Case {
 	vars := []string{"x", "s", "b", "n", "g", "z", "e", "l", "t"}
@@ -240,6 +261,11 @@ func checkC11(c *core.Ctx) {
 	collect(c11CharDriver())
 	collect(c11HoleDriver())
 	collect(c11HoleTypeDriver())
+	if c.Thorough() {
+		collect(c11HoleSeqDriver(6))
+	} else {
+		collect(c11HoleSeqDriver(5))
+	}
 	c.Count(0, total.States, total.Transitions, 0)
 	c.Set("max_len_special_alphabet", maxLen)
 
